@@ -35,7 +35,9 @@ TIE = ("hand-written transfer programs (FcpptModel/Model/C05.lean over the machi
 RULE = ("one op = one call of one registered operation (166): `<op> <T|M> <nargs> <cat>:<ids>... <par>...`; both sides print the shape of the "
         "result, the element objects of the result and of every argument afterwards (identity, `~` = moved-from), the identities copied, "
         "the identities move-constructed out of an argument object (in-place moves included, with multiplicity), the identities touched "
-        "after a move, the live values destroyed or overwritten during the call, and how many values the user's functions made from nothing. "
+        "after a move, the live values destroyed or overwritten during the call, how many values the user's functions made from nothing, and "
+        "the value category (lvalue / rvalue) with which the library handed each element to a user's function, per call (every harness "
+        "function is generic, records it and steals an rvalue). "
         "Functions of several arguments hand every argument on, so each argument's value category is observed on its own and all mixed "
         "combinations are enumerated; aliasing rows pass the same object twice / a value that is an element of the container. "
         "Exhaustive per operation over "
@@ -480,7 +482,7 @@ MANIFEST = {
                    "FcpptModel/Model/C05.lean) is a program over per-element transfers (move / copy / hand on as lvalue / whole-container "
                    "move / pop / erase / swap / in-place shift) that mirrors the template's control flow; for every operation, every argument size and every value "
                    "category the interpreter's event abstraction satisfies rvalue_no_copy, rvalue_moved_at_most_once, no_read_after_move, "
-                   "lvalue_unchanged, result_at_most_once, conserved, accepts_move_only, nothing_lost (all but the 24 operations that "
+                   "lvalue_unchanged, result_at_most_once, conserved, accepts_move_only, rvalue_handover_is_last_use, nothing_lost (all but the 26 operations that "
                    "destroy values by design: dropped failures, overwriting assignments, erasure) and rvalue_exactly_once_in_result (the 72 "
                    "operations documented to keep all elements). The programs "
                    "are tied to the code by a "
